@@ -72,6 +72,29 @@ pub mod verif_spec {
     pub fn row_major_index(r: &Rectangle, q: Point) -> i64 {
         (q.y as i64 - top(r)) * (r.size.width as i64) + (q.x as i64 - left(r))
     }
+    /// Closed-form set intersection (empty => Rectangle::zero()); every coordinate is assumed to be in
+    /// a domain where the i64 results fit i32/u32 (callers bound their inputs).
+    pub fn inter(a: &Rectangle, b: &Rectangle) -> Rectangle {
+        let l = max(left(a), left(b));
+        let r = min(right(a), right(b));
+        let t = max(top(a), top(b));
+        let bt = min(bottom(a), bottom(b));
+        if is_empty(a) || is_empty(b) || l >= r || t >= bt {
+            Rectangle::new(Point::new(0, 0), Size::new(0, 0))
+        } else {
+            Rectangle::new(Point::new(l as i32, t as i32), Size::new((r - l) as u32, (bt - t) as u32))
+        }
+    }
+    /// a is a subset of b as point sets
+    pub fn subset(a: &Rectangle, b: &Rectangle) -> bool {
+        is_empty(a) || (left(b) <= left(a) && right(a) <= right(b) && top(b) <= top(a) && bottom(a) <= bottom(b))
+    }
+    pub fn shift(r: &Rectangle, d: Point) -> Rectangle {
+        Rectangle::new(Point::new(r.top_left.x + d.x, r.top_left.y + d.y), r.size)
+    }
+    pub fn same_points(a: &Rectangle, b: &Rectangle) -> bool {
+        (is_empty(a) && is_empty(b)) || (a.top_left.x == b.top_left.x && a.top_left.y == b.top_left.y && a.size.width == b.size.width && a.size.height == b.size.height)
+    }
     /// lexicographic (y, x) order: a strictly before b in row-major order
     pub fn before(a: Point, b: Point) -> bool {
         a.y < b.y || (a.y == b.y && a.x < b.x)
